@@ -22,7 +22,7 @@ def rep(s,name,body):
     return s[:i+len(a)]+'\n'+body+'\n'+s[j:]
 s=rep(s,'FIXTABLE',fixes); s=rep(s,'SEEDTABLE',seeded)
 # per-round summary (final state)
-rounds={'1 (a,b)':'ab','2 (c,d)':'cd','3 (e,f)':'ef','4 (g,h)':'gh','5 (i,j)':'ij','6 (k,l)':'kl','7 (m,n)':'mn','8 (o,p,q)':'opq','9 (r,s)':'rs','10 (t,u)':'tu','11 (v,w)':'vw','12 (x,y)':'xy'}
+rounds={'1 (a,b)':'ab','2 (c,d)':'cd','3 (e,f)':'ef','4 (g,h)':'gh','5 (i,j)':'ij','6 (k,l)':'kl','7 (m,n)':'mn','8 (o,p,q)':'opq','9 (r,s)':'rs','10 (t,u)':'tu','11 (v,w)':'vw','12 (x,y)':'xy','13 (z,z2)':'z'}
 lines=[]
 for name,letters in rounds.items():
     ks=[k for k in res['seeded'] if k[3] in letters and os.path.isdir(f'/verif/seeded/{k}')]
